@@ -21,6 +21,8 @@ hand-written meaning of what `harness/translate/tlbparsers_blk.py` emits besides
                                   (`None` for a non-ordinary root), then the top-level `extra:Y` is read and dropped; an empty
                                   dictionary gives `({}, [y(self)])`
 
+  * `Rd.loadHashmapAug n x y sp`  `Slice.load_hashmap_aug(n, x, y)`: an INLINE `HashmapAug n X Y` (`AccountBlock.transactions`), `parse_aug`
+                                  started on the slice itself
   * `Rd.loadShardHashes leaf`     `deserialize_shard_hashes` of tlb/utils.py (a function with index loops over lists of slices — a HAND
                                   MODEL, its source text is pinned by the translator): `load_dict(32, BinTree.deserialize(ref))`, then
                                   every leaf slice is replaced by `ShardDescr.deserialize(leaf)` / `None` for a pruned cell
@@ -141,6 +143,38 @@ def loadHashmapAugE (n : Nat) (x y : Frag → R) (sp : Bool) (s : Frag) : R :=
         match y s1 with
         | some (e, s2) => some (tuple [dict [], list [e]], s2)
         | none => none
+    | none => none
+
+/-- `parse_aug` started on the slice `s` itself (an inline `HashmapAug n X Y`): (entries, extras) and what is left of `s` -/
+def augWalkInline (x y : Frag → R) (n : Nat) (s : Frag) : Option ((List (Bits × Val) × List Val) × Frag) :=
+  match (hmLabel n).dec s with
+  | none => none
+  | some (lv, s1) =>
+    let l := labelLen lv
+    let key := labelBitsOf lv
+    if n - l = 0 then
+      match y s1 with
+      | some (e, s2) =>
+        match x s2 with
+        | some (v, s3) => some (([(key, v)], [e]), s3)
+        | none => none
+      | none => none
+    else
+      match s1.refs with
+      | a :: b :: more =>
+        match augWalk x y n (n - l - 1) (key ++ [false]) a, augWalk x y n (n - l - 1) (key ++ [true]) b with
+        | some l1, some l2 =>
+          match y ⟨s1.bits, more⟩ with
+          | some (e, s2) => some ((l1.1 ++ l2.1, l1.2 ++ l2.2 ++ [e]), s2)
+          | none => none
+        | _, _ => none
+      | _ => none
+
+/-- `Slice.load_hashmap_aug(n, x_deserializer=x, y_deserializer=y)` (inline `HashmapAug n X Y`: `AccountBlock.transactions`) -/
+def loadHashmapAug (n : Nat) (x y : Frag → R) (sp : Bool) (s : Frag) : R :=
+  if sp then some (.unit, s)
+  else match augWalkInline x y n s with
+    | some (p, s') => some (tuple [dict p.1, list p.2], s')
     | none => none
 
 /-! ### `deserialize_shard_hashes` (tlb/utils.py) with `BinTree.deserialize` (tlb/block.py) -/
